@@ -6,41 +6,53 @@ TRUSTED = ["python ast (stdlib)", "RxPY: Subject delivers synchronously in subsc
 
 
 def rules_for(prop):
-    from .rules import mx, st, grp, lv, scan, er, ms, tm, seq, pr, ag, io, cont, num
+    from .rules import mx, st, grp, lv, scan, er, ms, tm, seq, pr, ag, io, cont, num, sub
     from functools import partial as P
-    from .engine import scoped
+    from .engine import only_constructs, scoped
     ROLL = ("rxsci/data/roll.py",)
 
     def named(f, **kw):
         g = P(f, **kw)
         return g
+
+    def per_subscription(*rels):
+        """SUB-1 / SUB-2 / GEN-1 on the modules a property is about (None: every module)"""
+        rules = [sub.rule_sub1, sub.rule_sub2, sub.rule_gen1]
+        return rules if not rels else [scoped(x, rels) for x in rules]
+    SEQ = ("rxsci/operators/first.py", "rxsci/operators/last.py", "rxsci/operators/take.py", "rxsci/operators/distinct.py",
+           "rxsci/operators/distinct_until_changed.py", "rxsci/data/lag.py", "rxsci/data/pad.py", "rxsci/operators/start_with.py",
+           "rxsci/data/batch.py", "rxsci/data/sort.py", "rxsci/data/to_deque.py", "rxsci/data/to_list.py", "rxsci/operators/scan.py")
+    FRAMING = ("rxsci/framing/line.py", "rxsci/framing/length_prefix.py")
+    COMPRESSION = ("rxsci/compression/z.py", "rxsci/compression/zstd.py")
+    CODEC = ("rxsci/data/codec.py",)
+    FILEIO = ("rxsci/io/file.py",)
     table = {
-        "C01": [ag.rule_ag1, ag.rule_ag2, ag.rule_ag3_small, ag.rule_ag3_map_filter, ag.rule_ag3_do_action, scan.rule_sc1, scan.rule_sd2, tm.rule_tm4, st.rule_st5, seq.rule_fw2],
+        "C01": per_subscription() + [mx.rule_ev1, ag.rule_ag1, ag.rule_ag2, ag.rule_ag3_small, ag.rule_ag3_map_filter, ag.rule_ag3_do_action, scan.rule_sc1, scan.rule_sd2, tm.rule_tm4, st.rule_st5, seq.rule_fw2],
         "C02": st.RULES + [ms.rule_ms, tm.rule_tm5, scan.rule_sd1],
-        "C03": mx.RULES + [st.rule_st8],
+        "C03": mx.RULES + [st.rule_st8, ms.rule_ms],
         "C04": [named(grp.rule_eq1, files=("rxsci/operators/group_by.py", "rxsci/state/memory_store.py", "rxsci/state/store.py",
                                            "rxsci/operators/multiplex.py"), min_instances=1), named(grp.rule_fw1, heads=("group_by",)), grp.rule_fl1,
                 named(lv.rule_lv, only=("group_by_mux._group_by.on_subscribe",)), ms.rule_ms],
         "C05": [grp.rule_roll, named(grp.rule_fw1, heads=("roll_count",)), scoped(st.rule_st2_3_4, ROLL), scoped(st.rule_st6, ROLL),
                 named(lv.rule_lv, only=("roll_mux._roll.subscribe", "roll_mux._roll_count.subscribe")), ms.rule_ms_states],
-        "C08": [tm.rule_tm123, tm.rule_tm4, tm.rule_tm5, st.rule_st5, mx.rule_mx7],
-        "C09": scan.RULES,
-        "C10": seq.RULES + [scan.rule_sc1, named(grp.rule_eq1, files=("rxsci/operators/distinct.py", "rxsci/operators/distinct_until_changed.py",
+        "C08": per_subscription("rxsci/operators/tee_map.py") + [tm.rule_tm123, tm.rule_tm4, tm.rule_tm5, st.rule_st5, mx.rule_mx7],
+        "C09": scan.RULES + per_subscription("rxsci/operators/scan.py", "rxsci/operators/count.py", "rxsci/data/to_list.py", "rxsci/data/to_array.py") + [ms.rule_ms_states],
+        "C10": seq.RULES + per_subscription(*SEQ) + [only_constructs(ag.rule_ag1, SEQ), only_constructs(ag.rule_ag2, SEQ), scan.rule_sc1, named(grp.rule_eq1, files=("rxsci/operators/distinct.py", "rxsci/operators/distinct_until_changed.py",
                                                        "rxsci/operators/first.py", "rxsci/operators/take.py", "rxsci/operators/last.py",
                                                        "rxsci/data/lag.py", "rxsci/data/pad.py", "rxsci/operators/start_with.py",
                                                        "rxsci/data/batch.py"), min_instances=1)],
-        "C11": [pr.rule_pr1, pr.rule_pr2, grp.rule_pr3, seq.rule_dp6, st.rule_st1],
-        "C12": [num.rule_nm1, ag.rule_ag4, named(scan.rule_pu1, files=("rxsci/math/sum.py", "rxsci/math/mean.py", "rxsci/math/min.py", "rxsci/math/max.py",
+        "C11": [io.rule_framing, pr.rule_pr1, pr.rule_pr2, grp.rule_pr3, seq.rule_dp6, st.rule_st1],
+        "C12": [scan.rule_sd1, num.rule_nm1, ag.rule_ag4, named(scan.rule_pu1, files=("rxsci/math/sum.py", "rxsci/math/mean.py", "rxsci/math/min.py", "rxsci/math/max.py",
                                                           "rxsci/math/variance.py", "rxsci/math/stddev.py", "rxsci/math/formal/variance.py",
                                                           "rxsci/math/formal/stddev.py", "rxsci/math/formal/__init__.py"))],
         "C13": er.RULES + [mx.rule_wc2, st.rule_st8, mx.rule_ev1],
         "C14": ms.RULES,
-        "C15": [io.rule_framing],
-        "C16": [io.rule_compression],
-        "C17": [io.rule_codec],
-        "C18": [cont.rule_csv_tables, cont.rule_csv_merge, cont.rule_csv_classify, cont.rule_dp7, io.rule_fr3, io.rule_fh1_file, io.rule_fr1],
-        "C19": [cont.rule_ag7, io.rule_framing, io.rule_codec, io.rule_compression, io.rule_fr3, io.rule_fh1_file],
-        "C20": [cont.rule_pu2, seq.rule_dp6, io.rule_fh1_parquet, scan.rule_sd1, scan.rule_sc1],
+        "C15": [io.rule_framing] + per_subscription(*FRAMING),
+        "C16": [io.rule_compression] + per_subscription(*COMPRESSION),
+        "C17": [io.rule_codec] + per_subscription(*CODEC),
+        "C18": [cont.rule_csv_tables, cont.rule_csv_merge, cont.rule_csv_classify, cont.rule_csv_file_modes, cont.rule_dp7, io.rule_fr3, io.rule_fh1_file, io.rule_fr1] + per_subscription("rxsci/container/csv.py", "rxsci/framing/line.py", *FILEIO),
+        "C19": [cont.rule_ag7, io.rule_framing, io.rule_codec, io.rule_compression, io.rule_fr3, io.rule_fh1_file] + per_subscription("rxsci/container/json.py", *(FRAMING + COMPRESSION + CODEC + FILEIO)),
+        "C20": [cont.rule_pu2, seq.rule_dp6, io.rule_fh1_parquet, scan.rule_sd1, scan.rule_sc1] + per_subscription("rxsci/container/parquet.py", "rxsci/data/batch.py", "rxsci/operators/scan.py"),
         "C06": [named(grp.rule_eq1, files=("rxsci/data/split.py",), min_instances=1), named(grp.rule_fw1, heads=("split",)), grp.rule_dp4,
                 named(lv.rule_lv, only=("split_mux._split.on_subscribe",)), ms.rule_ms_states],
         "C07": [grp.rule_time_split, seq.rule_opt1_time_split, named(grp.rule_fw1, heads=("time_split",)),
@@ -116,7 +128,7 @@ EXPLANATION = {
            "it; final=True flush emitted before completion; defaults incremental=True; json.py does not override them.",
     "C18": _COMMON + "Decided clauses (narrow): the unescape pairs of parse_line are the inverses of dump's escape pairs; defaults of "
            "separator/escapechar agree and reach join/split; type table (None <-> '', bool <-> 'True'); DP-7 the float parser is not a "
-           "separable sum f(int part) + g(fraction part); CS-2 the quoted-field merger consumes every split piece exactly once; CS-3 its decision table over 15 abstract pieces (by length class, first / last character and the parity of the escape run before a final quote) x {field open, closed} is the inverse of the writer's quoting and no path indexes beyond a piece; FR-3 file.read emits every non-empty chunk once, in order, and stops at the first empty chunk; FH-1 file.write closes the handle it opened itself (never a caller's) before forwarding the terminal event. FR-1 line framing of the file reader.",
+           "separable sum f(int part) + g(fraction part); CS-2 the quoted-field merger consumes every split piece exactly once; CS-3 its decision table over 15 abstract pieces (by length class, first / last character and the parity of the escape run before a final quote) x {field open, closed} is the inverse of the writer's quoting and no path indexes beyond a piece; FR-3 file.read emits every non-empty chunk once, in order, and stops at the first empty chunk; FH-1 file.write closes the handle it opened itself (never a caller's) before forwarding the terminal event. FR-1 line framing of the file reader; CS-5 dump_to_file writes str lines to a text-mode file and encoded lines to a binary one, for the default encoding too.",
     "C19": _COMMON + "Decided clause: AG-7 for each compression setting the stage list of load_from_file(lines=True) is the reversed "
            "stage list of dump_to_file through the inverse table; compression tables, modes, encoding and newline defaults agree; plus the stage rules of C15 (line framing), C16 (codecs) and C17 (text codec) "
            "for the stages the pipeline is composed of, and FR-3 / FH-1 for the file reader and writer.",
